@@ -71,9 +71,10 @@ Theorem C10_map_generated_history_independent : forall p h ops args, mgenerate p
   meval_on (fold_left mstep ops h) (mh_maps h) args (mp_body p) = meval_on h (mh_maps h) args (mp_body p).
 Proof. exact map_generated_history_independent_lemma. Qed.
 
-(* programs MIXING lists and maps, map literals built per evaluation (Heap/MixState.v: list heap and map heap in ONE
-   state; a map entry holds an integer or the handle of a shared list object, so a list constant is reachable through
-   the constant table, through constant maps and through the maps an evaluation builds).  All histories, no bound:
+(* programs MIXING lists and maps, map literals built per evaluation, LISTS OF LISTS (Heap/MixState.v: list heap and
+   map heap in ONE state; a map entry / an element of a list of lists holds the handle of a shared list object, so a
+   list constant is reachable through the constant table, through constant maps, through the maps an evaluation
+   builds and through outer list constants; an inner list obtained by index is appended to / materialised in place).  All histories, no bound:
    evaluations of this and other functions of the generator (failing ones, list results dropped / half consumed),
    further Generate calls, any other list operations and any other map operations on the two heaps *)
 Theorem C10_mixed_eval_history_independent : forall cp g hist k args j,
@@ -174,12 +175,12 @@ Proof. vm_compute. repeat split; reflexivity. Qed.
 Example C10_mixed_nonvacuous :
   let cp := mkCaps (fun n => 2 * n) (fun n => 2 * n) in
   let kl := [108%N] in let kn := [110%N] in let ka := [97%N] in let kz := [122%N] in
-  let p := mkXP [DL (LLit [1; 2]%Z); DL (LAppend (LConst 0) (ZS (SLit 3)))]
+  let p := mkXP [DL (LLit [1; 2]%Z); DL (LAppend (LConst 0) (ZS (SLit 3)))] []
                 [XMLit [(kl, XVList 1); (kn, XVInt (SLit 1))]]
                 [XBList (XMLit [(ka, XVInt (SArg 0)); (kl, XVList 1)]) kl; XBList (XMPut (XMConst 0) kz (XVInt (SArg 1))) kl]
                 (BZ (ZAdd (ZMul (ZSize (LAppend (LConst 2) (ZS (SArg 0)))) (ZS (SLit 10)))
                           (ZIndex (LAppend (LConst 3) (ZS (SArg 1))) (ZS (SLit 3))))) in
-  let q := mkXP [DL (LLit [4]%Z)] [XMLit [(kn, XVInt (SLit 1))]] [XBList (XMPut (XMConst 0) ka (XVInt (SArg 0))) kl] (BZ (ZSize (LConst 1))) in
+  let q := mkXP [DL (LLit [4]%Z)] [] [XMLit [(kn, XVInt (SLit 1))]] [XBList (XMPut (XMConst 0) ka (XVInt (SArg 0))) kl] (BZ (ZSize (LConst 1))) in
   let g1 := xrun_event cp new_xgenerator (XEGen p) in
   let g2 := xrun_event cp g1 (XEEval 0 [5; 7]%Z 0) in
   xgstate_ok g1 /\ length (xg_funcs g1) = 1 /\
@@ -190,6 +191,31 @@ Example C10_mixed_nonvacuous :
   xeval_after cp g1 [XEEval 0 [5; 7]%Z 0; XEEval 0 [1; 2]%Z 0; XEGen q; XEEval 1 [0]%Z 0; XEMapOps [MLit [(ka, 3%Z)]]] 0 [5; 7]%Z 0 = FuncState.OInt 47 /\
   sp_xprog q [0]%Z 0 = Some FuncState.OErr /\
   xeval_after cp g1 [XEGen q; XEEval 0 [5; 7]%Z 0] 1 [0]%Z 0 = FuncState.OErr.
+Proof.
+  cbv zeta. split; [apply (C10_mixed_reachable_states_ok _ [XEGen _])|]. vm_compute. repeat split; reflexivity.
+Qed.
+
+(* non-vacuity for LISTS OF LISTS (the `nested-const` shape):
+   `let c0=[1,2]; let c1=c0.map(e->e+1); let c2=[3]; let c3=c2.append(4); let o0=[c1,c3]; let c4=o0[a0]; c4.append(a1)`
+   the inner lists are shared objects (c1 lazy, c3 with spare capacity) held by the outer constant; an evaluation
+   materialises / appends to the inner list it obtained by index - the representation of c1 and c3 changes, the outer
+   list and what every later evaluation sees do not *)
+Example C10_list_of_lists_nonvacuous :
+  let cp := mkCaps (fun n => 2 * n) (fun n => 2 * n) in
+  let p := mkXP [DL (LLit [1; 2]%Z); DL (LMap (SLit 1) (LConst 0)); DL (LLit [3]%Z); DL (LAppend (LConst 2) (ZS (SLit 4)))]
+                [[1; 3]] [] [XBIndex 0 (SArg 0)] (BL (LAppend (LConst 4) (ZS (SArg 1)))) in
+  let g1 := xrun_event cp new_xgenerator (XEGen p) in
+  let g2 := xrun_hist cp g1 [XEEval 0 [1; 9]%Z 9; XEEval 0 [0; 8]%Z 0] in
+  xgstate_ok g1 /\ length (xg_funcs g1) = 1 /\
+  icontent (xg_heap g1) 4 = [1; 3]%Z /\ icontent (xg_heap g2) 4 = [1; 3]%Z /\
+  repr (xg_heap g1) 1 = (false, 0, 0) /\ repr (xg_heap g2) 1 = (true, 2, 2) /\
+  repr (xg_heap g1) 3 = (true, 2, 4) /\ repr (xg_heap g2) 3 = (true, 2, 2) /\
+  sp_xprog p [1; 9]%Z 9 = Some (FuncState.OList [3; 4; 9]%Z) /\
+  xeval_after cp g1 [] 0 [1; 9]%Z 9 = FuncState.OList [3; 4; 9]%Z /\
+  xeval_after cp g1 [XEEval 0 [1; 9]%Z 9; XEEval 0 [0; 8]%Z 0; XEGen p; XEEval 1 [1; 7]%Z 1] 0 [1; 9]%Z 9 = FuncState.OList [3; 4; 9]%Z /\
+  xeval_after cp g1 [XEEval 0 [1; 9]%Z 9] 0 [0; 5]%Z 9 = FuncState.OList [2; 3; 5]%Z /\
+  sp_xprog p [2; 0]%Z 9 = Some FuncState.OErr /\
+  xeval_after cp g1 [XEEval 0 [1; 9]%Z 9] 0 [2; 0]%Z 9 = FuncState.OErr.
 Proof.
   cbv zeta. split; [apply (C10_mixed_reachable_states_ok _ [XEGen _])|]. vm_compute. repeat split; reflexivity.
 Qed.
